@@ -216,3 +216,13 @@ Example lts_run_accepted :
   sender_accepts exp0 (LtsAcc.lts_trace p exp0 (LtsAcc.one_chunk exp0) [] [] 0 (Lts.init p) ls) = Some true /\
   data_out 1 (LtsAcc.lts_trace p exp0 (LtsAcc.one_chunk exp0) [] [] 0 (Lts.init p) ls) = [[1; 2; 3]; []].
 Proof. vm_compute. repeat split; reflexivity. Qed.
+
+(* ---- source equivalence (tools/go2coq; gen/SrcFns.v is regenerated from /repo on every run): the
+        Gallina definition translated from send.go's fileCanRequestData equals the model predicate
+        mode_is_regular used by sender_acc ---- *)
+From FSGen Require SrcFns.
+From FS Require Proofs.Src.FileCanRequestDataEq.
+Theorem fileCanRequestData_src_eq :
+  forall m, SrcFns.fileCanRequestData m = mode_is_regular m.
+Proof. exact FileCanRequestDataEq.fileCanRequestData_src_eq. Qed.
+Print Assumptions fileCanRequestData_src_eq.
